@@ -33,7 +33,49 @@ claim("C16",
       "is not modelled (handler stop arm is a separate obligation); Manager-level registry steps (sync.Map) not yet under contract.",
       "DESIGN.md §6 C16")
 
-for pid in ["C02","C04","C05","C07","C09","C10","C11","C12","C13","C14","C15","C17","C18","C19","C20"]:
+claim("C02",
+      "Validator soundness: BundleControlFlags/PrimaryBlock/CanonicalBlock/HopCountBlock/IpnEndpoint/EndpointID.CheckValid and Bundle.CheckValid are proved to "
+      "return nil only for values satisfying the BPv7 structural rules written from the statement (version 7, flag contradictions, payload block numbered 1 and last, "
+      "valid endpoint IDs, no report-requesting block in administrative/anonymous bundles, zero creation time only with an age block, hop count <= limit), with loop "
+      "invariants over an unbounded number of blocks. Pairwise uniqueness of block numbers/types is attempted in the thorough tier only.",
+      "Validity of dtn-scheme endpoints (regexp) and of block-specific data is an uninterpreted predicate per dynamic value (extValid/etValid); in-memory bundles are "
+      "assumed to carry non-nil block values whose Go type matches a registered type code; 'produced bundles are accepted by the parser' rests on C01; builder call sequences not yet under contract.",
+      "DESIGN.md §6 C02")
+
+claim("C11",
+      "OutgoingTransfer.NextSegment over a byte-level ghost stream: segments <= mtu, bytes are exactly the next bytes of the stream, START iff first, END exactly when the data "
+      "is exhausted (also when the length is a multiple of the segment size), io.EOF only after END; IncomingTransfer.NextSegment appends exactly the segment data, acknowledges "
+      "the running byte total, refuses foreign ids and segments after END; XFER_SEGMENT/XFER_ACK/XFER_REFUSE codecs round-trip (C17 contracts).",
+      "Concurrent transfers, acknowledgement routing inside TransferManager.Send/handle (goroutines, channels, timer) and the transport are not decided; io.Pipe/io.ReadFull semantics are a trusted model.",
+      "DESIGN.md §6 C11")
+
+claim("C14",
+      "IdKeeper.update assigns 0 to an untracked (source, creation time) tuple and predecessor+1 to a tracked one, writes exactly that number into the bundle and remembers it; "
+      "IdKeeper.clean (map iteration with deletion, inductive invariant over an arbitrary key) never forgets a zero-creation-time entry and never changes a counter.",
+      "Sequential semantics of the keeper's mutex; Core.SendBundle/transmit (store key vs assigned id) not yet under contract; string-keyed map indices use an injective uninterpreted encoding.",
+      "DESIGN.md §6 C14")
+
+claim("C17",
+      "M/U contracts for seven TCPCLv4 messages (big-endian fixed-width layouts from the TCPCLv4 draft, header/reason-code rejection over all 256 byte values, exact consumption), "
+      "creation timestamp, ipn SSP, BBC fragment header bit layout and accessor round trip.",
+      "Contact header magic (package-level initialiser), discovery announcements, WebSocket-agent messages, status reports/bundle ids and endpoint URI text <-> structure are not yet under contract; "
+      "encoding/binary and io.ReadFull/CopyN are trusted token-level models.",
+      "DESIGN.md §6 C17")
+
+claim("C18",
+      "Vanilla spray and wait: SenderForBundle spends exactly one copy per selected sender, never the last copy (remaining >= 1 whenever it was), appends as many peers to the sent list as it selects "
+      "and selects nothing without metadata or with fewer than two copies (loop invariants over an unbounded sender list); ReportFailure gives exactly one copy back and removes at most one sent entry.",
+      "Sequential histories only (concurrent failure reports not decided); membership clauses (selected peers not in the old sent list) and BinarySpray not yet under contract; cla.Manager.Sender and "
+      "BundleDescriptor.MustBundle are assumed contracts.",
+      "DESIGN.md §6 C18")
+
+claim("C19",
+      "In real arithmetic: encounter keeps every predictability in [0,1] and never lowers one, ageing never raises one, the transitive update (loop over the peer's map in arbitrary order) keeps all values in [0,1] "
+      "and never lowers one; ageCron likewise - invariants quantified over all endpoint IDs, discharged by ground instantiation + QF_NRA.",
+      "float64 treated as mathematical reals (IEEE rounding/NaN not modelled); the forwarding gate (SenderForBundle) and concurrent map access are not decided yet.",
+      "DESIGN.md §6 C19")
+
+for pid in ["C04","C05","C07","C09","C10","C12","C13","C15","C20"]:
     na(pid, UNBUILT)
 na("C08", "Durability across restarts/crash points and concurrent pushes are history properties of badgerhold/gob/the file system; "
           "the in-repo code is a thin reflection-driven wrapper; no function contract within reach can express or decide them (DESIGN.md §7).")
